@@ -133,6 +133,66 @@ def correspondences(tier, rng):
             return (([(x_, y_, bool(f)) for (x_, y_), f in zip(g.coordinates, g.flags)], list(t.flagStream)), list(t.glyphStream))
         return res(go)
     out.append(Corr("decodeTriplets", [c for c in dcases if c[0] >= 1], impl_dec))
+    # maxp's composite statistics: glyph trees (empty / simple / composite, nested up to four levels, deeper components first or last)
+    from fontTools.ttLib import TTFont, newTable
+    from fontTools.ttLib.tables._g_l_y_f import GlyphComponent
+    def gen_tree(depth):
+        k = rng.below(10)
+        if depth == 0 or k < 4: return ("s", rng.randint(1, 9), rng.randint(1, 3)) if k else ("e",)
+        return ("c", [gen_tree(depth - 1) for _ in range(rng.randint(1, 4))])
+    def enc_tree(t):
+        if t[0] == "e": return [0]
+        if t[0] == "s": return [1, t[1], t[2]]
+        out_ = [2, len(t[1])]
+        for c in t[1]: out_ += enc_tree(c)
+        return out_
+    def build(trees):
+        """a glyf table holding the trees: every node becomes a glyph; returns (font, glyf, [name of each tree's root])"""
+        f = TTFont(); glyf = newTable("glyf"); glyf.glyphs = {}; order = [".notdef"]; glyf.glyphs[".notdef"] = Glyph()
+        def add(t):
+            name = "n%d" % len(order); order.append(name)
+            g = Glyph()
+            if t[0] == "e": pass
+            elif t[0] == "s":
+                g.numberOfContours = t[2]; g.coordinates = GlyphCoordinates([(i, i) for i in range(t[1])]); g.flags = array.array("B", [1] * t[1])
+                g.endPtsOfContours = list(range(t[2] - 1)) + [t[1] - 1] if t[2] <= t[1] else [t[1] - 1] * t[2]
+            else:
+                g.numberOfContours = -1; g.components = []
+                for c in t[1]:
+                    comp = GlyphComponent(); comp.glyphName = add(c); comp.x = comp.y = 0; comp.flags = 0; g.components.append(comp)
+            glyf.glyphs[name] = g
+            return name
+        roots = [add(t) for t in trees]
+        f.setGlyphOrder(order); glyf.glyphOrder = order; f["glyf"] = glyf
+        return f, glyf, roots
+    mcases = [("c", [gen_tree(3) for _ in range(rng.randint(1, 4))]) for _ in range(N(tier, 400, 5000))]
+    def impl_maxp(t):
+        f, glyf, roots = build([t])
+        v = glyf[roots[0]].getCompositeMaxpValues(glyf)
+        return ((v.nPoints, v.nContours), v.maxComponentDepth)
+    out.append(Corr("compositeMaxp", mcases, impl_maxp, enc=lambda t: Raw(enc_tree(t))))
+    fcases = [[gen_tree(3) for _ in range(rng.randint(0, 6))] for _ in range(N(tier, 200, 2500))]
+    def impl_recalc(trees):
+        f, glyf, roots = build(trees)
+        # the composite part of maxp.recalc over the ROOT glyphs only (inner nodes are glyphs of the font too: include them all, as recalc does)
+        mp = mc = me = md = 0
+        for name in f.getGlyphOrder():
+            g = glyf[name]
+            if g.numberOfContours and g.isComposite():
+                v = g.getCompositeMaxpValues(glyf); mp = max(mp, v.nPoints); mc = max(mc, v.nContours); me = max(me, len(g.components)); md = max(md, v.maxComponentDepth)
+        return (((mp, mc), me), md)
+    def enc_font(trees):
+        # every node of every tree is a glyph of the font: list them all, as the model's recalc_composites folds over a glyph list
+        nodes = []
+        def walk(t):
+            nodes.append(t)
+            if t[0] == "c":
+                for c in t[1]: walk(c)
+        for t in trees: walk(t)
+        flat = [len(nodes)]
+        for t in nodes: flat += enc_tree(t)
+        return Raw(flat)
+    out.append(Corr("recalcComposites", fcases, impl_recalc, enc=enc_font))
     return out
 
 # ------------------------------------------------------------------ implementation-side sweeps
